@@ -1460,6 +1460,10 @@ class Simulation:
 
         """
 
+        # Ensure misfit has been computed (and therefore the electric fields,
+        # the residual, and the weights).
+        _ = self.misfit
+
         # Keep the current residual and gradient; they are restored below.
         residual = self.data.residual.data.copy()
         gradient = self._gradient
